@@ -217,6 +217,8 @@ SolveToReps(n) == {x \in MatReps(n, n) : x.tw = "N" /\ x.kind \in {"TriU", "TriL
 SolveVecToReps(n) == {x \in SolveToReps(n) : x.kind \in {"TriBandU", "TriBandL", "Tridiag"}}
 
 H(x) == Idx(KindSeq, x.kind) * 7 + Idx(TwSeq, x.tw) * 17 + x.r * 3 + x.c * 5 + x.p * 11 + x.q * 13
+\* a second hash, independent of the sampling hash, for per-case choices (receiver triangle, receiver shape of Copy)
+H2(x) == Idx(KindSeq, x.kind) * 5 + Idx(TwSeq, x.tw) * 3 + x.r * 7 + x.c * 11 + x.p + x.q * 2 + Seed
 \* the generator works on pairs <<representation, hash>> so that sampling costs integer arithmetic only
 Hd(S) == {<<x, H(x)>> : x \in S}
 HS(ha) == ha[1][2] * 3 + (IF Len(ha) >= 2 THEN ha[2][2] * 5 ELSE 0) + (IF Len(ha) >= 3 THEN ha[3][2] * 7 ELSE 0)
@@ -245,7 +247,7 @@ WindowSlots(rep) ==
 Desc(op, args, n1, n2, rs, rr, rc, up) ==
     [op |-> op, args |-> args, n1 |-> n1, n2 |-> n2, rs |-> rs, rr |-> rr, rc |-> rc, up |-> up]
 
-InShard(args, extra) == ((HS(args) + extra + Seed) % NShards) = Shard
+InShard(args, extra) == ((HS(args) + extra) % NShards) = Shard
 RSFor(args, extra) == IF AllRS THEN {1, 2, 3} ELSE {1 + ((HS(args) \div NShards + extra + Seed) % 3)}
 
 \* receiver shape: the result shape, or (for sized / view receivers) deliberately wrong shapes
@@ -305,7 +307,7 @@ NormalCasesOf(op) ==
             LET r(a) == D1(a[1])  c(a) == D2(a[1])  u(a) == TRUE IN
             With(op, UNION {{<<x>> : x \in Hd(MatReps(i, j))} : i \in N1, j \in N1}, {0}, r, c, u)
       [] op = "Copy" ->     \* receiver shape differs from the operand's: n1 in 0..3 picks it
-            LET r(a) == Max2(1, D1(a[1]) - 1 + (H(a[1]) % 3))  c(a) == Max2(1, D2(a[1]) - 1 + ((H(a[1]) \div 3) % 3))  u(a) == TRUE IN
+            LET r(a) == Max2(1, D1(a[1]) - 1 + (H2(a[1]) % 3))  c(a) == Max2(1, D2(a[1]) - 1 + ((H2(a[1]) \div 3) % 3))  u(a) == TRUE IN
             With(op, UNION {{<<x>> : x \in Hd(MatReps(i, j))} : i \in N1, j \in N1}, {0}, r, c, u)
       [] op = "Stack" ->
             LET r(a) == D1(a[1]) + D1(a[2])  c(a) == D2(a[1])  u(a) == TRUE IN
@@ -346,7 +348,7 @@ NormalCasesOf(op) ==
             LET r(a) == D1(a[1])  c(a) == 1  u(a) == TRUE IN
             With(op, UNION {{<<x>> : x \in Hd(VecReps(i))} : i \in N1}, {0}, r, c, u)
       [] op = "CopyVec" ->
-            LET r(a) == Max2(1, D1(a[1]) - 1 + (H(a[1]) % 3))  c(a) == 1  u(a) == TRUE IN
+            LET r(a) == Max2(1, D1(a[1]) - 1 + (H2(a[1]) % 3))  c(a) == 1  u(a) == TRUE IN
             With(op, UNION {{<<x>> : x \in Hd(VecReps(i))} : i \in N1}, {0}, r, c, u)
       [] op = "AddSym" ->
             LET r(a) == D1(a[1])  c(a) == D1(a[1])  u(a) == TRUE IN
@@ -355,7 +357,7 @@ NormalCasesOf(op) ==
             LET r(a) == D1(a[1])  c(a) == D1(a[1])  u(a) == TRUE IN
             With(op, UNION {{<<x>> : x \in Hd(SymReps(i))} : i \in N1}, Alphas, r, c, u)
       [] op = "CopySym" ->
-            LET r(a) == Max2(1, D1(a[1]) - 1 + (H(a[1]) % 3))  c(a) == r(a)  u(a) == TRUE IN
+            LET r(a) == Max2(1, D1(a[1]) - 1 + (H2(a[1]) % 3))  c(a) == r(a)  u(a) == TRUE IN
             With(op, UNION {{<<x>> : x \in Hd(SymReps(i))} : i \in N1}, {0}, r, c, u)
       [] op = "SymRankOne" ->
             LET r(a) == D1(a[1])  c(a) == D1(a[1])  u(a) == TRUE IN
@@ -376,7 +378,7 @@ NormalCasesOf(op) ==
             LET r(a) == D1(a[1])  c(a) == D1(a[1])  u(a) == IsUpper(a[1]) IN
             With(op, UNION {{xy \in Hd(TriReps(i)) \X Hd(TriReps(i)) : IsUpper(xy[1][1]) = IsUpper(xy[2][1])} : i \in N1}, {0}, r, c, u)
       [] op = "CopyTri" ->  \* TriDense.Copy(a Matrix): the receiver's triangle of a is copied
-            LET r(a) == Max2(1, D1(a[1]) - 1 + (H(a[1]) % 3))  c(a) == r(a)  u(a) == (H(a[1]) % 2) = 0 IN
+            LET r(a) == Max2(1, D1(a[1]) - 1 + (H2(a[1]) % 3))  c(a) == r(a)  u(a) == ((H2(a[1]) \div 9) % 2) = 0 IN
             With(op, UNION {{<<x>> : x \in Hd(MatReps(i, j))} : i \in N1, j \in N1}, {0}, r, c, u)
       [] op = "DivElem" ->
             LET r(a) == D1(a[1])  c(a) == D2(a[1])  u(a) == TRUE IN
